@@ -204,6 +204,18 @@ def build(case):
             d["u"] = [{"def": {"n": [d.name]}}]
             for el in list(d.ports) + list(d.cables):
                 el["u"] = [{"k": [el.name, {"deep": [0]}]}]
+    if extra == "odd-shapes":
+        # bundles that are not based at 0 / not downto (also one bit wide, flagged scalar or not), wires whose pins
+        # were attached in another order than ports-first
+        for l in n.libraries:
+            for d in l.definitions:
+                for k, el in enumerate(list(d.ports) + list(d.cables)):
+                    el.lower_index = 7 + k
+                    el.is_downto = (k % 2 == 1)
+                for c in d.cables:
+                    for wr in c.wires:
+                        if len(wr.pins) > 1:
+                            wr.pins = list(reversed(list(wr.pins)))
     if extra == "unnamed":
         for l in n.libraries:
             for d in l.definitions:
@@ -370,7 +382,7 @@ def query_agreement(n, c, m, tag):
 
 
 engine_b.WORKERS[ID] = worker
-EXTRAS = ("plain", "unnamed", "top-also-child", "definition-removed", "edif-policy")
+EXTRAS = ("plain", "unnamed", "top-also-child", "definition-removed", "edif-policy", "odd-shapes")
 
 
 def cases(tier):
